@@ -117,8 +117,11 @@ func limitChunkMatches(file *zoekt.FileMatch, limit int) int {
 					}
 				}
 				if n > 0 {
-					// Should be impossible.
-					log.Panicf("Failed to find enough newlines when truncating Content, %d left over, %d ranges", n, len(cm.Ranges))
+					// Impossible for a valid shard. In a corrupt shard the line
+					// numbers can disagree with the content. This runs outside
+					// the per-shard recover, so a panic here would take down the
+					// whole process: keep the content as it is instead.
+					log.Printf("failed to find enough newlines when truncating Content, %d left over, %d ranges", n, len(cm.Ranges))
 				}
 			}
 
